@@ -290,6 +290,9 @@ theorem all_false_of_ne_nil {α : Type} {p : α → Bool} {l : List α} (hl : l 
 /-- a fiber as the list of its elements (identity) -/
 abbrev asList {κ : Type} {d : Nat} (t : Tree κ ν (d + 1)) : List (κ × Tree κ ν d) := t
 
+/-- a nest as the list of its children (identity) -/
+abbrev asNestList {d : Nat} (l : Nest ν (d + 1)) : List (Nest ν d) := l
+
 /-- what `_makeFiber` returns has no empty element anywhere, is not empty itself, has a
     complete first-payload chain and is sorted at every level -/
 structure GoodTree (dflt : ν) (d : Nat) (t : Tree Nat ν (d + 1)) : Prop where
@@ -394,6 +397,147 @@ theorem makeFiber_eq_none_iff (dflt : ν) : ∀ (d : Nat) (l : Nest ν (d + 1)),
         intro x hx
         exact (ih x).2 (h' x hx)
       rw [this]; rfl
+
+/-! #### shapes -/
+
+theorem rectB_succ (d : Nat) (n : Nat) (ns : List Nat) (l : Nest ν (d + 1)) :
+    rectB (d + 1) (n :: ns) l = (decide (List.length l = n) && List.all l (rectB d ns)) := rfl
+
+theorem rectB_succ_nil (d : Nat) (l : Nest ν (d + 1)) : rectB (d + 1) [] l = false := rfl
+
+theorem rectB_zero_cons (n : Nat) (ns : List Nat) (v : Nest ν 0) : rectB 0 (n :: ns) v = false := rfl
+
+/-- a rectangular nest: outer length and rectangular children -/
+theorem rect_parts {d n : Nat} {ns : List Nat} {l : Nest ν (d + 1)} (h : rectB (d + 1) (n :: ns) l = true) :
+    List.length l = n ∧ ∀ x ∈ asNestList l, rectB d ns x = true := by
+  rw [rectB_succ, Bool.and_eq_true] at h
+  exact ⟨of_decide_eq_true h.1, List.all_eq_true.1 h.2⟩
+
+theorem zipWith_max_self (l : List Nat) : List.zipWith max l l = l := by
+  induction l with
+  | nil => rfl
+  | cons x xs ih => simp [List.zipWith, ih]
+
+theorem maxMerge_self (l : List Nat) : maxMerge l l = l := by
+  induction l with
+  | nil => rfl
+  | cons x xs ih => simp [maxMerge, ih]
+
+theorem maxMerge_nil_left (l : List Nat) : maxMerge [] l = l := by
+  cases l <;> rfl
+
+theorem calcShapeRest_const {d : Nat} {cs : Nest ν d → List Nat} {ns : List Nat} :
+    ∀ (l : List (Nest ν d)), l ≠ [] → (∀ x ∈ l, cs x = ns) → calcShapeRest cs l = ns := by
+  intro l
+  induction l with
+  | nil => intro h; exact absurd rfl h
+  | cons x xs ih =>
+    intro _ hall
+    cases xs with
+    | nil => exact hall x (List.mem_cons_self ..)
+    | cons y ys =>
+      have h1 := hall x (List.mem_cons_self ..)
+      have h2 := ih (by simp) (fun z hz => hall z (List.mem_cons_of_mem _ hz))
+      show List.zipWith max (cs x) (calcShapeRest cs (y :: ys)) = ns
+      rw [h1, h2, zipWith_max_self]
+
+theorem foldl_maxMerge_const {α : Type} {sh : α → List Nat} {ns : List Nat} :
+    ∀ (l : List α), (∀ c ∈ l, sh c = ns) → l.foldl (fun rest c => maxMerge rest (sh c)) ns = ns := by
+  intro l
+  induction l with
+  | nil => intro _; rfl
+  | cons c cs ih =>
+    intro h
+    rw [List.foldl_cons, h c (List.mem_cons_self ..), maxMerge_self]
+    exact ih (fun z hz => h z (List.mem_cons_of_mem _ hz))
+
+theorem foldl_maxMerge_const_nil {α : Type} {sh : α → List Nat} {ns : List Nat} (l : List α) (hl : l ≠ [])
+    (h : ∀ c ∈ l, sh c = ns) : l.foldl (fun rest c => maxMerge rest (sh c)) [] = ns := by
+  cases l with
+  | nil => exact absurd rfl hl
+  | cons c cs =>
+    rw [List.foldl_cons, h c (List.mem_cons_self ..), maxMerge_nil_left]
+    exact foldl_maxMerge_const cs (fun z hz => h z (List.mem_cons_of_mem _ hz))
+
+theorem ne_nil_of_length_pos {α : Type} {l : List α} (h : 0 < l.length) : l ≠ [] := by
+  intro e; rw [e] at h; exact Nat.lt_irrefl 0 h
+
+theorem rect_zero_dims {ns : List Nat} {v : Nest ν 0} (h : rectB 0 ns v = true) : ns = [] := by
+  cases ns with
+  | nil => rfl
+  | cons n r => rw [rectB_zero_cons] at h; cases h
+
+theorem calcShape_eq_dims : ∀ (d : Nat) (dims : List Nat) (l : Nest ν (d + 1)),
+    rectB (d + 1) dims l = true → (∀ n ∈ dims, 0 < n) → calcShape d l = dims := by
+  intro d
+  induction d with
+  | zero =>
+    intro dims l hr hpos
+    cases dims with
+    | nil => rw [rectB_succ_nil] at hr; cases hr
+    | cons n ns =>
+      obtain ⟨hlen, hall⟩ := rect_parts hr
+      have hn : 0 < n := hpos n (List.mem_cons_self ..)
+      have hne : asNestList l ≠ [] := ne_nil_of_length_pos (by rw [hlen]; exact hn)
+      obtain ⟨x, hx⟩ := List.exists_mem_of_ne_nil _ hne
+      have hns := rect_zero_dims (hall x hx)
+      subst hns
+      show [List.length (asNestList l)] = [n]
+      rw [hlen]
+  | succ d ih =>
+    intro dims l hr hpos
+    cases dims with
+    | nil => rw [rectB_succ_nil] at hr; cases hr
+    | cons n ns =>
+      obtain ⟨hlen, hall⟩ := rect_parts hr
+      have hn : 0 < n := hpos n (List.mem_cons_self ..)
+      have hne : asNestList l ≠ [] := ne_nil_of_length_pos (by rw [hlen]; exact hn)
+      show List.length (asNestList l) :: calcShapeRest (calcShape d) (asNestList l) = n :: ns
+      rw [hlen, calcShapeRest_const (asNestList l) hne
+        (fun x hx => ih ns x (hall x hx) (fun m hm => hpos m (List.mem_cons_of_mem _ hm)))]
+
+theorem fiberShapeSome_eq_dims (dflt : ν) : ∀ (d : Nat) (dims : List Nat) (l : Nest ν (d + 1)),
+    rectB (d + 1) dims l = true → (makeFiber dflt d l).isSome = true → fiberShapeSome dflt d l = dims := by
+  intro d
+  induction d with
+  | zero =>
+    intro dims l hr hs
+    cases dims with
+    | nil => rw [rectB_succ_nil] at hr; cases hr
+    | cons n ns =>
+      obtain ⟨hlen, hall⟩ := rect_parts hr
+      obtain ⟨t, ht⟩ := Option.isSome_iff_exists.1 hs
+      obtain ⟨_, hne⟩ := makeFiber_some_zero ht
+      obtain ⟨e, he⟩ := List.exists_mem_of_ne_nil _ hne
+      obtain ⟨x, hx, _⟩ := items_mem _ _ _ e he
+      have hns := rect_zero_dims (hall x hx)
+      subst hns
+      show [List.length (asNestList l)] = [n]
+      rw [hlen]
+  | succ d ih =>
+    intro dims l hr hs
+    cases dims with
+    | nil => rw [rectB_succ_nil] at hr; cases hr
+    | cons n ns =>
+      obtain ⟨hlen, hall⟩ := rect_parts hr
+      obtain ⟨t, ht⟩ := Option.isSome_iff_exists.1 hs
+      obtain ⟨_, hne⟩ := makeFiber_some_succ ht
+      obtain ⟨e, he⟩ := List.exists_mem_of_ne_nil _ hne
+      obtain ⟨x, hx, hxs⟩ := items_mem _ _ _ e he
+      show List.length (asNestList l) ::
+        ((asNestList l).filter (fun c => (makeFiber dflt d c).isSome)).foldl
+          (fun rest c => maxMerge rest (fiberShapeSome dflt d c)) [] = n :: ns
+      rw [hlen]
+      congr 1
+      apply foldl_maxMerge_const_nil
+      · intro hnil
+        have : x ∈ (asNestList l).filter (fun c => (makeFiber dflt d c).isSome) := by
+          apply List.mem_filter.2
+          exact ⟨hx, by rw [hxs]; rfl⟩
+        rw [hnil] at this; cases this
+      · intro c hc
+        obtain ⟨hc1, hc2⟩ := List.mem_filter.1 hc
+        exact ih ns c (hall c hc1) hc2
 
 end Make
 end Ft
